@@ -1,10 +1,179 @@
-//! C16 — not built yet.
-use crate::ev::Ctx;
-pub fn run(_ctx: &Ctx) -> i32 {
-    println!("INCONCLUSIVE property=C16 check not built yet");
-    2
+//! C16 — broken pipes and other write errors at the CLI.
+//!
+//! The consumer of stdout reads exactly k bytes and closes, for k from 0 to
+//! several pipe capacities, while more than 1 MiB of output remains (so xt must
+//! meet EPIPE; no race with normal completion). xt must die from SIGPIPE with
+//! an empty stderr. With stdout on /dev/full it must exit 1 with a message.
+
+use serde_json::{json, Value};
+
+use crate::ev::{self, Acc, Ctx, Finish, Violation};
+use crate::fmts::{Fmt, ALL};
+use crate::model::preview;
+use crate::procmon::{self, Run, Scratch, Status, StdinKind, StdoutKind};
+
+pub const KS: &[usize] = &[0, 1, 100, 4095, 4096, 8191, 8192, 8193, 65535, 65536, 65537, 131072, 327680];
+
+fn big_json(bytes: usize, single_table: bool) -> Vec<u8> {
+    let mut s = String::new();
+    if single_table {
+        s.push_str("{\"rows\":[");
+        let mut i = 0;
+        while s.len() < bytes {
+            if i > 0 {
+                s.push(',');
+            }
+            s.push_str(&format!("{{\"id\":{i},\"text\":\"row number {i} of a large table\"}}"));
+            i += 1;
+        }
+        s.push_str("]}\n");
+    } else {
+        let mut i = 0;
+        while s.len() < bytes {
+            s.push_str(&format!("{{\"id\":{i},\"text\":\"row number {i} of a long stream\",\"tags\":[\"a\",\"b\"]}}\n"));
+            i += 1;
+        }
+    }
+    s.into_bytes()
 }
-pub fn replay(_case: &serde_json::Value) -> i32 {
-    println!("replay not built yet");
-    2
+
+#[derive(Clone, Debug)]
+pub struct Case {
+    pub to: Fmt,
+    pub k: usize,
+    pub layout: &'static str, // one_file | stdin | many_files
+    pub single_table: bool,
+}
+
+impl Case {
+    fn json(&self) -> Value {
+        json!({"to": self.to.name(), "k": self.k, "layout": self.layout, "single_table": self.single_table})
+    }
+}
+
+pub fn judge_pipe(case: &Case, acc: &mut Acc) {
+    acc.evals += 1;
+    let sc = Scratch::new();
+    let single = case.single_table || case.to == Fmt::Toml;
+    let mut argv: Vec<String> = vec!["-t".into(), case.to.name().into()];
+    let mut stdin = StdinKind::Null;
+    match case.layout {
+        "stdin" => stdin = StdinKind::Bytes(big_json(3 << 20, single)),
+        "many_files" if !single => {
+            for i in 0..10 {
+                let n = format!("part{i}.json");
+                sc.file(&n, &big_json(400 << 10, false));
+                argv.push(n);
+            }
+        }
+        _ => {
+            sc.file("big.json", &big_json(3 << 20, single));
+            argv.push("big.json".into());
+        }
+    }
+    let out = procmon::run(Run { bin: &procmon::release_bin(), argv: argv.clone(), cwd: sc.path(), stdin, stdout: StdoutKind::CloseAfter(case.k), wall_secs: 120, cpu_secs: 60 });
+    acc.count(&format!("closing_point_k_{}", case.k));
+    acc.count(&format!("layout_{}", case.layout));
+    acc.count(&format!("target_{}", case.to.name()));
+    if matches!(out.status, Status::Timeout | Status::SpawnError(_)) {
+        acc.inconclusive += 1;
+        return;
+    }
+    if out.stdout.len() != case.k {
+        // the consumer could not even get k bytes: the output was shorter than planned (harness sizing problem)
+        acc.inconclusive += 1;
+        acc.count("consumer_got_fewer_bytes_than_k");
+        return;
+    }
+    let ok = out.status == Status::Signal(libc::SIGPIPE) && out.stderr.is_empty();
+    if ok {
+        acc.count("killed_by_sigpipe_silently");
+    } else {
+        acc.violation(Violation { sig: format!("closed pipe to={} {}: {}", case.to.name(), case.layout, if out.status == Status::Signal(libc::SIGPIPE) { "stderr not empty".to_string() } else { out.status.show() }), case: case.json(), observed: format!("status {}, stderr [{}]", out.status.show(), preview(&out.stderr, 200)), expected: "killed by SIGPIPE with nothing on stderr".into() });
+    }
+}
+
+pub fn judge_devfull(to: Fmt, bytes: usize, acc: &mut Acc) {
+    acc.evals += 1;
+    let sc = Scratch::new();
+    sc.file("in.json", &big_json(bytes, true));
+    let out = procmon::run(Run { bin: &procmon::release_bin(), argv: vec!["-t".into(), to.name().into(), "in.json".into()], cwd: sc.path(), stdin: StdinKind::Null, stdout: StdoutKind::DevFull, wall_secs: 60, cpu_secs: 30 });
+    acc.count("dev_full_runs");
+    if matches!(out.status, Status::Timeout | Status::SpawnError(_)) {
+        acc.inconclusive += 1;
+        return;
+    }
+    let err = String::from_utf8_lossy(&out.stderr);
+    if out.status != Status::Exit(1) || !err.starts_with("xt error") {
+        acc.violation(Violation { sig: format!("/dev/full to={} {}", to.name(), if bytes < 8192 { "below buffer" } else { "above buffer" }), case: json!({"devfull": true, "to": to.name(), "bytes": bytes}), observed: format!("status {}, stderr [{}]", out.status.show(), preview(&out.stderr, 200)), expected: "exit 1 and a message beginning 'xt error'".into() });
+    }
+}
+
+pub fn cases(ctx: &Ctx) -> Vec<Case> {
+    let mut v = vec![];
+    let layouts: &[&'static str] = &["one_file", "stdin", "many_files"];
+    for (ti, to) in ALL.iter().enumerate() {
+        for (ki, k) in KS.iter().enumerate() {
+            for (li, layout) in layouts.iter().enumerate() {
+                // quick: a rotating third of the layouts per (target, k); thorough: all
+                let _ = (ti, ki, li);
+                {
+                    v.push(Case { to: *to, k: *k, layout, single_table: (ki + li) % 2 == 0 });
+                }
+            }
+        }
+    }
+    if ctx.thorough() {
+        // more closing points around buffer and pipe-capacity multiples
+        for to in ALL {
+            for base in [8192usize, 16384, 65536, 131072, 262144] {
+                for d in [-2i64, -1, 0, 1, 2] {
+                    v.push(Case { to, k: (base as i64 + d) as usize, layout: "one_file", single_table: false });
+                }
+            }
+        }
+    }
+    v
+}
+
+pub fn run(ctx: &Ctx) -> i32 {
+    let cs = cases(ctx);
+    let mut acc = crate::par::run(cs.len(), 1, |i, acc| {
+        acc.distinct(&format!("{:?}", cs[i]));
+        acc.sample_every(17, || cs[i].json());
+        judge_pipe(&cs[i], acc);
+    });
+    for to in ALL {
+        for bytes in [200usize, 4000, 9000, 100_000] {
+            judge_devfull(to, bytes, &mut acc);
+        }
+    }
+    let rule = format!("{} closing-pipe runs: the consumer takes exactly k bytes for k in {:?} and closes while more than 1 MiB of output remains, x 4 targets x input layouts (one 3 MiB file, 3 MiB on stdin, ten 400 KiB files so that the failure is also met in the per-input flush), single-table and multi-document inputs; plus 16 runs with stdout on /dev/full (outputs below and above the 8 KiB buffer); distinct non-trivial = distinct (target, k, layout) cases", cs.len(), KS);
+    ev::finish(
+        Finish { ctx, level: "fault_enumeration", rule, assumptions: vec!["the kernel's pipe semantics: a write to a pipe whose read end is closed fails with EPIPE".into(), "a run in which the consumer could not obtain k bytes is inconclusive, not a violation".into()], extra: serde_json::Map::new(), exhaustive: false, min_distinct: 40, must_reach: vec![("killed_by_sigpipe_silently".into(), 40), ("dev_full_runs".into(), 16), ("layout_many_files".into(), 5), ("layout_stdin".into(), 5)] },
+        acc,
+    )
+}
+
+pub fn replay(v: &Value) -> i32 {
+    let c = &v["case"];
+    let mut acc = Acc::default();
+    let Some(to) = c["to"].as_str().and_then(Fmt::parse) else { return 2 };
+    if c["devfull"].as_bool() == Some(true) {
+        judge_devfull(to, c["bytes"].as_u64().unwrap_or(200) as usize, &mut acc);
+    } else {
+        let layout: &'static str = match c["layout"].as_str() {
+            Some("stdin") => "stdin",
+            Some("many_files") => "many_files",
+            _ => "one_file",
+        };
+        judge_pipe(&Case { to, k: c["k"].as_u64().unwrap_or(0) as usize, layout, single_table: c["single_table"].as_bool().unwrap_or(false) }, &mut acc);
+    }
+    if acc.vio_count > 0 {
+        println!("VIOLATION property=C16 replay=<this file> (reproduced): {}", acc.violations[0].observed);
+        1
+    } else {
+        println!("not reproduced");
+        0
+    }
 }
